@@ -197,8 +197,9 @@ def save_replay(ctx, script, trace, index, name):
         pos += k
         if pos >= index:
             break
-    os.makedirs(os.path.join(VERIF, "replays"), exist_ok=True)
-    rp = os.path.join(VERIF, "replays", "%s-%s-seed%d-%d.ndjson" % (ctx.prop, name, ctx.seed, index))
+    from common import REPLAY_DIR
+    os.makedirs(REPLAY_DIR, exist_ok=True)
+    rp = os.path.join(REPLAY_DIR, "%s-%s-seed%d-%d.ndjson" % (ctx.prop, name, ctx.seed, index))
     # keep the replay small: start at the last creation of the lowest-numbered instance involved
     write_ndjson(rp, keep)
     return rp
@@ -357,7 +358,7 @@ def pn_constants(ctx):
 def poll_constants(ctx, to):
     cap = 2 if to in (0, -1) else to
     return {"V": ctx.q("{0, 127}", "{0, 1, 127}"), "ExtraCns": "{5, 7, 37, 39, 95, 102}",
-            "TO": str(to), "CAP": str(cap)}
+            "TOc": str(999 if to < 0 else to), "CAP": str(cap)}
 
 
 def mc_cc14(ctx):
